@@ -723,7 +723,7 @@ impl Check for C10Check {
         "fault_enumeration"
     }
     fn rule(&self) -> String {
-        "scenario = a base event of well-formed packets (seeded subset of the 8x32 (board, ADC channel) pairs - across scenarios all 256, periodically all at once - and of the installed (PWB board, chip) groups with 1..72 pad channels plus reset/FPN channels; waveform lengths around the run's delay; suppression on/off; fully suppressed 16-byte packets; BV/TRB3/MCVX banks that must be ignored) under one of 15 run-number configurations (simulation, every calibration/map range boundary +-1, runs without maps), with either no fault or ONE inconsistency from the exhaustive list {rename wire bank (channel/board), swap two wire payloads, duplicate wire bank (identical / short copy / suppressed copy, copy first or last), drop TRG, two TRG, BV channel in a C bank (full / 16-byte form), suppressed packet under another channel's name, rename pad bank, swap pad payloads across boards, duplicate / drop a pad chunk, pad data of a board not installed for the run, PWB packet inside the chunks naming another board/chip than its chunk headers and bank names (also a second message's identity, so that two messages claim the same pads; long or delay-short), unknown bank name (13 spellings), malformed wire / pad / TRG payload in 11 / 15 / 9 CRC- and baseline-valid ways (unknown MAC in any byte, reserved bytes, version/type/module, keep_last, sample counts, masks, chip letter, end marker, TRG marks, reserved words, counter ordering, truncation)}; every (event, fault) is built under 3 arrival orders x 2 hash keys by the real try_from_banks. Waveforms carry a channel-unique signature so a wrong slot or delay is attributable. Oracle: the reference event assembler (statement of C10 as code; slots from the probed public maps; calibration parsed by the harness from the shipped files); all 256 wire and 18432 pad slots and the timestamp are compared through the cfg(alpha_g_verif) accessors. Non-trivial = at least one real build; distinct = distinct event-log hashes (bank bytes, order, outcome).".into()
+        "scenario = a base event of well-formed packets (seeded subset of the 8x32 (board, ADC channel) pairs - across scenarios all 256, periodically all at once - and of the installed (PWB board, chip) groups with 1..72 pad channels plus reset/FPN channels; waveform lengths around the run's delay; suppression on/off; fully suppressed 16-byte packets; BV/TRB3/MCVX banks that must be ignored) under one of 15 run-number configurations (simulation, every calibration/map range boundary +-1, runs without maps), with either no fault or ONE inconsistency from the exhaustive list {rename wire bank (channel/board), swap two wire payloads, duplicate wire bank (identical / short copy / suppressed copy, copy first or last), drop TRG, two TRG, BV channel in a C bank (full / 16-byte form), suppressed packet under another channel's name, rename pad bank, swap pad payloads across boards, duplicate / drop a pad chunk, pad data of a board not installed for the run, PWB packet inside the chunks naming another board/chip than its chunk headers and bank names (also a second message's identity, so that two messages claim the same pads; long or delay-short), unknown bank name (13 spellings), malformed wire / pad / TRG payload in 11 / 15 / 9 CRC- and baseline-valid ways (unknown MAC in any byte, reserved bytes, version/type/module, keep_last, sample counts, masks, chip letter, end marker, TRG marks, reserved words, counter ordering, truncation)}; every (event, fault) is built under 3 arrival orders x 2 hash keys by the real try_from_banks, each build on a fresh thread; a further block of history scenarios assembles 1-3 other events (5 of 6 with one of the faults above, i.e. rejected at some stage of the build; seeded bank order; same or another run; often the same (board, chip) groups) on the SAME thread before a consistent event under test. Waveforms carry a channel-unique signature so a wrong slot or delay is attributable. Oracle: the reference event assembler (statement of C10 as code; slots from the probed public maps; calibration parsed by the harness from the shipped files); all 256 wire and 18432 pad slots and the timestamp are compared through the cfg(alpha_g_verif) accessors. Non-trivial = at least one real build; distinct = distinct event-log hashes (bank bytes, order, outcome).".into()
     }
     fn assumptions(&self) -> Vec<String> {
         vec![
